@@ -1839,8 +1839,12 @@ func (c *collector) corpus() {
 			CObj{ID: 0, UID: 1, Owner: OOurs, Ver: 1}.Applied(), CObj{ID: 1, UID: 2, Owner: OOurs, Ver: 1, Deps: []int{0}}.Applied(),
 			CObj{ID: 2, UID: 3, Owner: OOurs, Ver: 1, Deps: []int{0}}.Applied()}}
 		for _, victim := range []int{1, 2} {
-			for k := range []int{0, 1} {
+			for k := range faultErrs { // every error kind (seed C05h: a 409 on the DELETE is a failed delete, not "already gone")
 				c.fixedHistory(ux, bothDep, []fixedRun{{opts: dT, faults: []FAddr{{Kind: "FDelete", I: victim, Err: k}}}})
+				// ... and the watcher then reports the victim under another UID (recreated by somebody else): still a failed
+				// delete, the third object stays
+				c.fixedHistory(ux, bothDep, []fixedRun{{opts: dT, faults: []FAddr{{Kind: "FDelete", I: victim, Err: k}},
+					foreign: map[int][]SObs{0: {{ID: victim, St: SCurrent, Body: true, UID: 77, Gen: 1}}}}})
 			}
 			c.fixedHistory(ux, bothDep, []fixedRun{{local: []LObj{{ID: 3 - victim, Ver: 1, Deps: []int{0}}}, opts: Opts{Prune: true, Policy: PMustMatch, PruneTimeout: true},
 				faults: []FAddr{{Kind: "FDelete", I: victim}}}})
@@ -2415,6 +2419,11 @@ func runProfile(p profile, seed int64, tier, outDir string) (*emit.Summary, erro
 		cf := &emit.CaseFile{Name: fmt.Sprintf("Cases_%s_%d", p.name, i/perFile),
 			Imports: "From CliUtils Require Import Model.PipelineTypes Corr.CorrPipeline.",
 			Check:   "check_" + p.name}
+		if p.name == "C05" {
+			// extra monitor conjunct (seed C05h): a rejected delete is never reported successful (Corr/CorrC05x.v)
+			cf.Imports = "From CliUtils Require Import Model.PipelineTypes Corr.CorrPipeline Corr.CorrC05x."
+			cf.Check = "check_C05x"
+		}
 		if p.check != "" {
 			// mutation campaigns (tools/mutpipe.py): every monitor on every case
 			cf.Imports = "From CliUtils Require Import Model.PipelineTypes Corr.CorrPipeline Corr.CorrPipelineAll."
